@@ -4,7 +4,8 @@ open Pyemv Pyemv.Gen
 
 theorem tools_cbc (k iv d : Bytes) : Gen.tools.encrypt_tdes_cbc k iv d = encryptTdesCbc k iv d := by
   unfold Gen.tools.encrypt_tdes_cbc encryptTdesCbc
-  simp only [bind, Except.bind, pure, Except.pure]
+  simp only [bind, Except.bind, pure, Except.pure, except_match_eta]
   repeat (first | rfl | split)
+  all_goals first | (simp_all; done) | omega | slice_forms
 
 end Pyemv.ModRefines
